@@ -172,8 +172,13 @@ def rmtree(d):
     shutil.rmtree(d, ignore_errors=True)
 
 
+_replay_n = 0
+
+
 def replay_dir(prop, tag):
-    d = os.path.join(WORK, 'replay', '%s_%s_%d' % (prop, tag, int(time.time() * 1000) % 100000000))
+    global _replay_n
+    _replay_n += 1
+    d = os.path.join(WORK, 'replay', '%s_%s_%d_%d' % (prop, tag, int(time.time() * 1000) % 100000000, _replay_n))
     os.makedirs(d, exist_ok=True)
     return d
 
